@@ -198,6 +198,8 @@ func (d *Desc) Fill(v sx.V, dst reflect.Value) error {
 		}
 	case KAddr:
 		return fillAddr(v, dst)
+	case KCellSlice:
+		return fillCellSlice(v, dst)
 	case KDictE:
 		if v.K != sx.KL || len(v.List) < 1 || len(v.List) > 2 || !v.List[0].IsA("maybe") {
 			return fmt.Errorf("dict: %s", trunc(v.String()))
